@@ -10,7 +10,7 @@ import rules as R
 from lib import esc_list, unesc_list
 
 THEOREMS = ['C13.C13_preamble_kept', 'C13.C13_second_definition_is_error', 'C13.C13_plain_value', 'C13.C13_undefined_is_error',
-            'C13.C13_self_reference_is_error', 'C13.C13_indirect_cycle_diverges', 'C13.C13_no_reference_left',
+            'C13.C13_self_reference_is_error', 'C13.C13_indirect_cycle_is_error', 'C13.C13_cycle_is_reported', 'C13.C13_no_reference_left',
             'C13.C13_value_fully_expanded', 'C13.C13_answer_independent_of_fuel']
 REF = re.compile(r'@\{([^{}]+)\}')
 
@@ -335,13 +335,16 @@ def run(ctx):
     # ---- known findings ---------------------------------------------------------------------------------------
     cyc = '%s\t%s' % (esc_list(['@{a}']), '\t'.join(R.enc(e) for e in [mk('variable', ['a', ['@{b}/x'], True]), mk('variable', ['b', ['@{a}/y'], True])]))
     try:
-        q = subprocess.run('ulimit -v 700000; exec %s run resolve' % ctx.path('vharness'), shell=True, input=(cyc + '\n').encode(),
-                           stdout=subprocess.PIPE, stderr=subprocess.PIPE, timeout=40, env=dict(os.environ, GOMEMLIMIT='300MiB'))
+        # (no address-space limit: the Go runtime does not start under one; an unbounded recursion ends at the 1 GB stack limit)
+        q = subprocess.run([ctx.path('vharness'), 'run', 'resolve'], input=(cyc + '\n').encode(),
+                           stdout=subprocess.PIPE, stderr=subprocess.PIPE, timeout=60)
         crashed = q.returncode != 0 or not q.stdout.strip()
     except subprocess.TimeoutExpired:
         crashed = True
-    if crashed:
-        ctx.known_finding('K_indirectCycle')
+    if crashed or not q.stdout.decode().startswith('err'):
+        # repaired by a fix: commit (a cycle between variables is reported); replayed on every run
+        ctx.violation('an indirect cycle of variables (@{a} = @{b}/x, @{b} = @{a}/y) is not reported as an error: %s' % (
+            'the process crashed or ran out of memory' if crashed else q.stdout.decode()[:200]), {'op': cyc, 'suite': 'resolve'})
     tw = '%s\t%s' % (esc_list(['@{a}@{a}']), R.enc(mk('variable', ['a', ['x', 'y'], True])))
     o = ctx.run_go('resolve', [tw])[0]
     if o.startswith('ok') and sorted(unesc_list(o.split('\t')[1])) != ['xx', 'xy', 'yx', 'yy']:
